@@ -137,12 +137,19 @@ func buildBattery(g *gen.G, m *model.Model, schema models.IndexSchema, dead []uu
 			add(models.Query{Property: p, VectorVamana: &models.SearchVectorVamanaOptions{Vector: g.Vector(dim, metric), Operator: models.OperatorNear, SearchSize: ss, Limit: 1 + g.R.IntN(ss), Filter: filt(), Weight: weights[g.R.IntN(len(weights))]}}, false, star)
 		}
 	}
-	// composites
-	add(models.Query{Property: "_or", Or: []models.Query{
-		{Property: "vec", VectorVamana: &models.SearchVectorVamanaOptions{Vector: g.Vector(5, models.DistanceEuclidean), Operator: models.OperatorNear, SearchSize: 50, Limit: 10}},
-		{Property: "txt", Text: &models.SearchTextOptions{Value: textQuery(g), Operator: models.OperatorContainsAny, Limit: 10}},
-		intQ("n", models.OperatorLessThan, 0, 0),
-	}}, false, nil)
+	// composites. The text leaf's top-10 cut must not go through a tie class: the
+	// score sums its terms in map order, so mathematically equal scores differ in
+	// the last bit from one execution to the next and a different tie member makes
+	// the cut - inside a composite that is not confined to the last tie class.
+	tv := textQuery(g)
+	thits := m.BuildCorpus("txt").Query(model.Analyse(tv), false, nil)
+	if !(len(thits) > 10 && thits[9].Score-thits[10].Score <= 1e-5*(1+math.Abs(thits[10].Score))) {
+		add(models.Query{Property: "_or", Or: []models.Query{
+			{Property: "vec", VectorVamana: &models.SearchVectorVamanaOptions{Vector: g.Vector(5, models.DistanceEuclidean), Operator: models.OperatorNear, SearchSize: 50, Limit: 10}},
+			{Property: "txt", Text: &models.SearchTextOptions{Value: tv, Operator: models.OperatorContainsAny, Limit: 10}},
+			intQ("n", models.OperatorLessThan, 0, 0),
+		}}, false, nil)
+	}
 	add(models.Query{Property: "_and", And: []models.Query{
 		{Property: "flat", VectorFlat: &models.SearchVectorFlatOptions{Vector: g.Vector(4, models.DistanceEuclidean), Operator: models.OperatorNear, Limit: 40}},
 		strQ("s", models.OperatorNotEquals, "a", ""),
